@@ -95,6 +95,9 @@ class Runner:
         if mode[0] == "tmpdir":
             env["OVNI_TMPDIR"] = os.path.join(d, "tmp")
             env["VERIF_READDIR"] = mode[1]
+        elif mode[0] == "same":
+            # OVNI_TMPDIR names the trace directory itself (under another spelling)
+            env["OVNI_TMPDIR"] = os.path.join(d, ".", "final")
         log = os.path.join(d, "log")
         # harness/killat.c: ptrace tracer; inject is None, "kill:N" or "err:N:ERRNO" (N = global index in the runtime phase)
         cmd = [self.killat, log, inject or "-"]
@@ -268,7 +271,7 @@ def run_c09(prop, tier):
         scratch.cleanup()
 
 
-FAULTS = {"mkdir": ["EACCES", "ENOSPC"], "openat": ["EACCES", "ENOSPC", "EMFILE"], "write": ["ENOSPC", "EIO"], "read": ["EIO"],
+FAULTS = {"mkdir": ["EACCES", "ENOSPC"], "openat": ["EACCES", "ENOSPC", "EMFILE"], "write": ["ENOSPC", "EIO", "EINTR"], "read": ["EIO"],
           "close": ["EIO"], "unlink": ["EACCES"], "rmdir": ["EACCES"], "newfstatat": ["EACCES"], "getdents64": ["EIO"], "fdatasync": ["EIO"]}
 
 
@@ -279,7 +282,8 @@ def run_c10(prop, tier):
         build = Build()
         runner = Runner(build, scratch)
         scens = ["h1", "h2"] if tier == "quick" else ["h1", "h2", "h3", "h5", "h4a"]
-        modes = [("direct", None), ("tmpdir", "obs-first")] if tier == "quick" else [("direct", None), ("tmpdir", "json-first"), ("tmpdir", "obs-first")]
+        modes = [("direct", None), ("tmpdir", "obs-first"), ("same", None)] if tier == "quick" else \
+                [("direct", None), ("tmpdir", "json-first"), ("tmpdir", "obs-first"), ("same", None)]
         jobs = []
         refs = {}
         for sc in scens:
@@ -375,8 +379,8 @@ def run_c10(prop, tier):
                               {"kind": "io-fault", "syscall": s["sc"], "what": p.split(" ")[0]})
         ctx.cov["distinct_nontrivial"] = len(jobs)
         ctx.cov["outcomes"] = outcomes
-        ctx.cov["rule"] = ("the same scenarios and modes as C09; every runtime-phase syscall (mkdir, openat, write, read, close, newfstatat, getdents64, unlink, rmdir) "
-                           "fails once with each errno of its class (EACCES/ENOSPC/EMFILE/EIO), and every write() of the single-threaded scenarios completes partly once "
+        ctx.cov["rule"] = ("the same scenarios and modes as C09 plus OVNI_TMPDIR naming the trace directory; every runtime-phase syscall (mkdir, openat, write, read, close, newfstatat, getdents64, unlink, rmdir) "
+                           "fails once with each errno of its class (EACCES/ENOSPC/EMFILE/EIO, EINTR for write), and every write() of the single-threaded scenarios completes partly once "
                            "(1 byte, half, all but one byte; link-level interposition in the driver); oracle: abort with a diagnostic, or normal return with a complete "
                            "valid final trace accepted by ovniemu; in both cases no temporary file is removed while its final copy is incomplete")
         ctx.sample({"scenario": "h2", "mode": ["tmpdir", "obs-first"], "fault": "ENOSPC on the 2nd write of the relocation copy of stream.obs"})
